@@ -86,6 +86,24 @@ func runObligations(obls []*Obligation, timeoutS int, par int) {
 			if r.Status != "unsat" && r.Status != "sat" {
 				r = Solve(q, timeoutS, nil, false)
 			}
+			if r.Status != "unsat" && r.Status != "sat" && !o.ExpectFail {
+				// last resort: prove the goal by cases (old elements / new element)
+				if qs := splitQueries(o); qs != nil {
+					all := true
+					total := 0.0
+					for _, cq := range qs {
+						cr := Solve(cq, timeoutS, nil, false)
+						total += cr.TimeS
+						if cr.Status != "unsat" {
+							all = false
+							break
+						}
+					}
+					if all {
+						r = &SolveResult{Status: "unsat", Solver: "portfolio (case split on the range bound)", TimeS: total}
+					}
+				}
+			}
 			o.Result = r
 		}(o)
 	}
